@@ -143,3 +143,246 @@ def record_write_case(cid, T, sid, jobs, mods, seed, origin='tlc'):
             ev['exc'] = type(ex).__name__ + ': ' + str(ex)[:80]
         events.append(ev)
     return {'id': cid, 'origin': origin, 'tree': G, 'sid': sid, 'events': events}
+
+
+# ==========================================================================
+# readers (C01): rendering of intended corpora (joins only; the rendering is decoded by
+# the TLA+ decoders before it counts) and recording of reader runs
+import gzip
+import os
+import random
+import shutil
+import tempfile
+from xml.sax.saxutils import quoteattr
+
+un = treeio.unchars
+
+
+def _nodes(T):
+    nodes = sorted(T['nodes'], key=lambda x: (x['d'], min(x['y']), x['tok']))
+    par = {}
+    for i, x in enumerate(nodes):
+        anc = [(y['d'], k) for k, y in enumerate(nodes) if treeio.dominates(y, x)]
+        par[i] = max(anc)[1] if anc else None
+    return nodes, par
+
+
+def _height(nodes, par):
+    h = {i: 0 for i in range(len(nodes))}
+    for i in sorted(range(len(nodes)), key=lambda i: -nodes[i]['d']):
+        if par[i] is not None:
+            h[par[i]] = max(h[par[i]], h[i] + 1)
+    return h
+
+
+def render_export(T, sid, four, rnd):
+    nodes, par = _nodes(T)
+    h = _height(nodes, par)
+    cons = [i for i, x in enumerate(nodes) if not x['tok'] and par[i] is not None]
+    cons.sort(key=lambda i: (h[i], min(nodes[i]['y'])))
+    num = {i: 500 + k for k, i in enumerate(cons)}
+    for i, x in enumerate(nodes):
+        if par[i] is None:
+            num[i] = 0
+    sep = rnd.choice(['\t', '\t\t', ' ', '  '])
+    lines = ['#BOS %d' % sid + rnd.choice(['', ' 1 1234 0', ' 5 99 1 %% comment'])]
+
+    def line(i, word):
+        a = nodes[i]['a']
+        f = [word] + ([un(a['lemma'])] if four else []) + [un(a['lab']), un(a['morph']), un(a['edge']), str(num[par[i]])]
+        if rnd.random() < 0.2:
+            f += ['SEC', str(num[par[i]])]
+        return sep.join(f)
+    toks = sorted([i for i, x in enumerate(nodes) if x['tok']], key=lambda i: nodes[i]['y'][0])
+    for i in toks:
+        lines.append(line(i, un(nodes[i]['a']['word'])))
+    for i in cons:
+        lines.append(line(i, '#%d' % num[i]))
+    lines.append('#EOS %d' % sid)
+    return '\n'.join(lines) + '\n'
+
+
+def render_brackets(T, rnd, emptyroot=False, numbers=False):
+    nodes, par = _nodes(T)
+    kids = {i: [] for i in range(len(nodes))}
+    for i, p in par.items():
+        if p is not None:
+            kids[p].append(i)
+    ws = rnd.choice([' ', ' ', '\n  ', '  ', '\t'])
+
+    def rec(i, top):
+        x = nodes[i]
+        if x['tok']:
+            w = str(x['y'][0]) if numbers else un(x['a']['word'])
+            return '(' + un(x['a']['lab']) + rnd.choice([' ', '  ']) + w + ')'
+        ks = sorted(kids[i], key=lambda k: min(nodes[k]['y']))
+        lab = '' if (top and emptyroot) else un(x['a']['lab'])
+        inner = ws.join(rec(k, False) for k in ks)
+        return '(' + lab + rnd.choice(['', ' ']) + inner + rnd.choice(['', ' ']) + ')'
+    root = [i for i in par if par[i] is None][0]
+    return rec(root, True)
+
+
+def render_tiger_s(T, sid, rnd):
+    nodes, par = _nodes(T)
+    kids = {i: [] for i in range(len(nodes))}
+    for i, p in par.items():
+        if p is not None:
+            kids[p].append(i)
+    ident = {}
+    for i, x in enumerate(nodes):
+        ident[i] = 's%d_%d' % (sid, x['y'][0]) if x['tok'] else 's%d_n%d' % (sid, 500 + i)
+
+    def attrs(pairs):
+        pairs = list(pairs)
+        rnd.shuffle(pairs)
+        return ' '.join('%s=%s' % (k, quoteattr(v)) for k, v in pairs)
+    out = ['<s id="s%d">' % sid, '<graph root="%s">' % ident[[i for i in par if par[i] is None][0]], '<terminals>']
+    for i in sorted([i for i, x in enumerate(nodes) if x['tok']], key=lambda i: nodes[i]['y'][0]):
+        a = nodes[i]['a']
+        out.append('<t %s />' % attrs([('id', ident[i]), ('word', un(a['word'])), ('lemma', un(a['lemma'])),
+                                       ('pos', un(a['lab'])), ('morph', un(a['morph']))]))
+    out.append('</terminals>')
+    out.append('<nonterminals>')
+    nts = [i for i, x in enumerate(nodes) if not x['tok']]
+    rnd.shuffle(nts)
+    for i in nts:
+        out.append('<nt %s>' % attrs([('id', ident[i]), ('cat', un(nodes[i]['a']['lab']))]))
+        ks = list(kids[i])
+        rnd.shuffle(ks)
+        for k in ks:
+            out.append('<edge %s />' % attrs([('label', un(nodes[k]['a']['edge'])), ('idref', ident[k])]))
+        out.append('</nt>')
+    out += ['</nonterminals>', '</graph>', '</s>']
+    return '\n'.join(out) + '\n'
+
+
+def lex_tokens(text):
+    """the lexical classes of a bracket file (mirror of the lexer's three character classes)"""
+    toks, cur, kind = [], '', None
+    for c in text:
+        k = 'P' if c in '()' else ('W' if c.isspace() else 'O')
+        if k == 'P':
+            if cur:
+                toks.append(['WS' if kind == 'W' else 'TOKEN', ch(cur)])
+                cur, kind = '', None
+            toks.append(['LRB' if c == '(' else 'RRB', [c]])
+        else:
+            if kind is not None and kind != k:
+                toks.append(['WS' if kind == 'W' else 'TOKEN', ch(cur)])
+                cur = ''
+            cur += c
+            kind = k
+    if cur:
+        toks.append(['WS' if kind == 'W' else 'TOKEN', ch(cur)])
+    return toks
+
+
+def run_reader(mods, fmt, path, enc, params, atoms=None):
+    ti = mods['treeinput']
+    events = []
+    out, err = io.StringIO(), io.StringIO()
+    with contextlib.redirect_stdout(out), contextlib.redirect_stderr(err):
+        try:
+            gen = getattr(ti, fmt)(path, enc, **params)
+            for tree in gen:
+                events.append({'a': 'yield', 'g': treeio.Dumper(treeio.IDENT, all_chars=True).dump(tree)})
+            events.append({'a': 'eof'})
+        except Exception as ex:
+            events.append({'a': 'error', 'exc': type(ex).__name__, 'msg': str(ex)[:80]})
+    printed = len(out.getvalue().strip().splitlines()) + len(err.getvalue().strip().splitlines())
+    for e in events:
+        if e['a'] == 'eof':
+            e['printed'] = printed
+    return events
+
+
+def reader_params(opts, sep, firstid):
+    p = {o: True for o in opts}
+    if sep != '-':
+        p['gf_separator'] = sep
+    if 'brackets_firstid' in p:
+        p['brackets_firstid'] = firstid
+    return p
+
+
+def record_tokens_case(cid, toks, opts, mods, seed, origin='tlc'):
+    mods = mods or treeio.repo_modules()
+    rnd = random.Random(seed)
+    text = ''
+    for c, x in toks:
+        text += rnd.choice([' ', '\n', '  ', '\t', ' \n ']) if c == 'WS' else un(x)
+    tmp = tempfile.mkdtemp(prefix='vf_rd_')
+    try:
+        path = os.path.join(tmp, 'in.brackets')
+        with open(path, 'w', encoding='utf-8') as f:
+            f.write(text)
+        firstid = 1
+        events = run_reader(mods, 'brackets', path, 'utf-8', reader_params(opts, '-', firstid))
+    finally:
+        shutil.rmtree(tmp, ignore_errors=True)
+    return {'id': cid, 'origin': origin, 'kind': 'tokens', 'fmt': 'brackets', 'opts': sorted(opts), 'sep': ['-'],
+            'four': 'F', 'toks': lex_tokens(text), 'firstid': firstid, 'trees': [], 'sids': [], 'expsids': [],
+            'input': [], 'events': events, 'text': text[:200]}
+
+
+def record_corpus_case(cid, Ts, fmt, opts, sep, mods, seed, origin='tlc'):
+    mods = mods or treeio.repo_modules()
+    rnd = random.Random(seed)
+    four = rnd.random() < 0.5
+    sids = []
+    s0 = rnd.choice([1, 7, 500])
+    for k in range(len(Ts)):
+        sids.append(s0 + k * rnd.choice([1, 1, 3]))
+    firstid = rnd.choice([1, 42]) if 'brackets_firstid' in opts else 1
+    enc = rnd.choice(['utf-8', 'utf-8', 'latin-1']) if fmt != 'tigerxml' else 'utf-8'
+    gz = fmt != 'tigerxml' and rnd.random() < 0.3
+    inputs = []
+    if fmt == 'export':
+        parts = [render_export(T, s, four, rnd) for T, s in zip(Ts, sids)]
+        text = rnd.choice(['', '%% header\n#FORMAT 4\n#BOT ORIGIN\n#EOT ORIGIN\n']) + \
+            rnd.choice(['', '\n', '%% between\n']).join(parts)
+        inputs = [export_lines(p) for p in parts]
+        expsids = [k + 1 for k in range(len(Ts))] if 'continuous' in opts else sids
+    elif fmt == 'brackets':
+        er = rnd.random() < 0.4
+        text = rnd.choice(['\n', '\n\n', ' ']).join(render_brackets(T, rnd, emptyroot=er) for T in Ts) + rnd.choice(['\n', ''])
+        expsids = [firstid + k for k in range(len(Ts))]
+        if er:
+            Ts = [_with_root_label(T, 'VROOT') for T in Ts]
+    elif fmt == 'discobrackets':
+        text = ''.join(render_brackets(T, random.Random(seed), numbers=True) + '\t' +
+                       ' '.join(un(x['a']['word']) for x in sorted([x for x in T['nodes'] if x['tok']], key=lambda x: x['y'][0]))
+                       + '\n' for T in Ts)
+        expsids = [firstid + k for k in range(len(Ts))]
+    else:
+        body = ''.join(render_tiger_s(T, s, rnd) for T, s in zip(Ts, sids))
+        text = "<?xml version='1.0' encoding='utf-8'?>\n<corpus>\n<head/>\n<body>\n" + body + "</body>\n</corpus>\n"
+        rec = tiger_record(text)
+        inputs = rec['sents'] if rec['ok'] == 'T' and len(rec['sents']) == len(Ts) else []
+        expsids = [k + 1 for k in range(len(Ts))] if 'continuous' in opts else sids
+    try:
+        text.encode(enc)
+    except UnicodeEncodeError:
+        enc = 'utf-8'
+    tmp = tempfile.mkdtemp(prefix='vf_rd_')
+    try:
+        path = os.path.join(tmp, 'in.' + fmt + ('.gz' if gz else ''))
+        data = text.encode(enc)
+        with (gzip.open(path, 'wb') if gz else open(path, 'wb')) as f:
+            f.write(data)
+        events = run_reader(mods, fmt, path, enc, reader_params(opts, sep, firstid))
+    finally:
+        shutil.rmtree(tmp, ignore_errors=True)
+    return {'id': cid, 'origin': origin, 'kind': 'corpus', 'fmt': fmt, 'opts': sorted(opts), 'sep': [sep],
+            'four': 'T' if four else 'F', 'toks': [], 'firstid': firstid, 'trees': Ts, 'sids': sids,
+            'expsids': expsids, 'input': inputs, 'events': events, 'enc': enc, 'gz': gz, 'text': text[:300]}
+
+
+def _with_root_label(T, lab):
+    import copy
+    T = copy.deepcopy(T)
+    for x in T['nodes']:
+        if x['d'] == 0:
+            x['a']['lab'] = ch(lab)
+    return T
